@@ -191,6 +191,25 @@ def _enum_nested():
             yield {"domain": "list", "matcher": M("AfterPreprocessing", "list", fn="sorted", inner=x, annotate=True), "value": v, "fs": None}
 
 
+def _enum_dicts():
+    """The three dict matchers x expected keys x every small dict, falsy values included (0, "", None are values too)."""
+    M = ML.M
+    vals = [0, 1]
+    keysets = [[], ["a"], ["a", "b"]]
+    observed = [{}]
+    for ks in (["a"], ["b"], ["a", "b"], ["a", "c"], ["a", "b", "c"], ["c"]):
+        for combo in itertools.product(vals, repeat=len(ks)):
+            observed.append(dict(zip(ks, combo)))
+    for name in ("MatchesDict", "ContainsDict", "ContainedByDict"):
+        for ks in keysets:
+            for leaf_k in (0, 1):
+                inner = {k: M("Equals", "int", k=leaf_k) for k in ks}
+                for v in observed:
+                    for flavour in ("dict", "defaultdict"):
+                        yield {"domain": "dict", "matcher": M(name, "dict", inner=inner), "value": v, "fs": None, "dict_flavour": flavour}
+                        yield {"domain": "dict", "matcher": M("Not", "dict", inner=M(name, "dict", inner=inner)), "value": v, "fs": None, "dict_flavour": flavour}
+
+
 def _enum_one_shot():
     """The sequence matchers that are documented for iterators / 'values', fed one-shot iterators."""
     M = ML.M
@@ -252,6 +271,9 @@ def subchecks(tier):
         Sub("nested_combinators_with_empties", run_case, enum=_enum_nested, enum_complete=True,
             note="22 inner list combinators (incl. MatchesAny() / MatchesAll() / AnyMatch on []) under 8 list parents x 31 "
                  "lists of lists, and under MatchesDict / ContainsDict / MatchesStructure / AfterPreprocessing"),
+        Sub("dict_matchers_grid", run_case, enum=_enum_dicts, enum_complete=True,
+            note="MatchesDict / ContainsDict / ContainedByDict (and their negations) x expected key sets {}, {a}, {a,b} x every dict over "
+                 "keys a, b, c with values 0 / 1 (falsy values included), as dict and as defaultdict"),
         Sub("one_shot_iterators", run_case, enum=_enum_one_shot, enum_complete=True,
             note="AllMatch / AnyMatch / Not(AllMatch) / MatchesSetwise (<= 2 leaves) / SameMembers x every list over {0,1,2} of "
                  "length <= 3, handed over as a one-shot iterator"),
